@@ -11,6 +11,7 @@ import (
 	"github.com/ethereum/go-ethereum/event"
 	"math/big"
 	"strings"
+	"sync"
 	"time"
 
 	"github.com/ethereum/go-ethereum/accounts/abi/bind"
@@ -27,7 +28,7 @@ import (
 
 func init() {
 	Register(&Scenario{
-		Name: "c07_contract_seq", Property: "C07", MaxSteps: 4000, Quick: 120, Thorough: 6000,
+		Name: "c07_contract_seq", Property: "C07", MaxSteps: 4000, Quick: 400, Thorough: 12000,
 		Doc:  "the production payment wiring: PaymentService over payment.ContractPayment (deposit cache fed by contract events) with the real vipnode pool contract on go-ethereum's simulated chain; wallets deposit, earn credit, withdraw repeatedly; blocks are mined when the scenario decides (a settlement is pending until then); at the end everything paid out of the contract is covered by what the withdrawing wallets deposited and earned - other depositors' money is never touched",
 		Real: []string{"pool/payment PaymentService + contractPayment (cache, event subscription, OpSettle)", "vipnode pool contract (EVM bytecode)", "go-ethereum simulated backend", "store driver", "request signing"},
 		Stub: []string{"no RPC layer: the payment service is called directly", "block production (a scenario decision)"},
@@ -35,27 +36,120 @@ func init() {
 	})
 }
 
-// lossyChain is the simulated chain with log subscriptions that can lose their connection (as a websocket to an
-// Ethereum node does).
+// lossyChain is the simulated chain as a pool sees it through its connection to an Ethereum node: log subscriptions
+// can lose their connection (as a websocket does), establishing a new one can take time, events can be slow to
+// arrive, and so can the answer to a call.
 type lossyChain struct {
 	*backends.SimulatedBackend
 	drop chan struct{}
+	subs int
+	// resubGate, when set, is what every subscription after the first waits for before it exists
+	resubGate chan struct{}
+	// eventGate, when set, holds every event back until it is closed
+	eventGate chan struct{}
+	// callGate, when set, holds the answer of the next pending-state call back until it is closed
+	callGate chan struct{}
+	mu       sync.Mutex
+}
+
+func (b *lossyChain) gate(which string) chan struct{} {
+	b.mu.Lock()
+	defer b.mu.Unlock()
+	switch which {
+	case "resub":
+		return b.resubGate
+	case "event":
+		return b.eventGate
+	}
+	g := b.callGate
+	b.callGate = nil // one call only
+	return g
+}
+
+func (b *lossyChain) setGate(which string, g chan struct{}) {
+	b.mu.Lock()
+	defer b.mu.Unlock()
+	switch which {
+	case "resub":
+		b.resubGate = g
+	case "event":
+		b.eventGate = g
+	default:
+		b.callGate = g
+	}
+}
+
+func (b *lossyChain) PendingCallContract(ctx context.Context, call ethereum.CallMsg) ([]byte, error) {
+	out, err := b.SimulatedBackend.PendingCallContract(ctx, call)
+	if g := b.gate("call"); g != nil {
+		select {
+		case <-g:
+		case <-ctx.Done():
+		}
+	}
+	return out, err
 }
 
 func (b *lossyChain) SubscribeFilterLogs(ctx context.Context, q ethereum.FilterQuery, ch chan<- types.Log) (ethereum.Subscription, error) {
-	inner, err := b.SimulatedBackend.SubscribeFilterLogs(ctx, q, ch)
+	b.mu.Lock()
+	b.subs++
+	again := b.subs > 1
+	b.mu.Unlock()
+	if g := b.gate("resub"); again && g != nil {
+		select {
+		case <-g:
+		case <-ctx.Done():
+			return nil, ctx.Err()
+		}
+	}
+	mid := make(chan types.Log, 16)
+	inner, err := b.SimulatedBackend.SubscribeFilterLogs(ctx, q, mid)
 	if err != nil {
 		return nil, err
 	}
+	b.mu.Lock()
+	drop := b.drop
+	b.mu.Unlock()
 	return event.NewSubscription(func(quit <-chan struct{}) error {
 		defer inner.Unsubscribe()
-		select {
-		case <-b.drop:
-			return errors.New("websocket: connection to the ethereum node lost")
-		case err := <-inner.Err():
-			return err
-		case <-quit:
-			return nil
+		deliver := func(l types.Log) bool {
+			if g := b.gate("event"); g != nil {
+				select {
+				case <-g:
+				case <-quit:
+					return false
+				}
+			}
+			select {
+			case ch <- l:
+				return true
+			case <-quit:
+				return false
+			}
+		}
+		for {
+			// (what has arrived is passed on before anything else is looked at: a select among several ready
+			// cases would be a coin the simulator does not own)
+			select {
+			case l := <-mid:
+				if !deliver(l) {
+					return nil
+				}
+				continue
+			default:
+			}
+			select {
+			case l := <-mid:
+				if !deliver(l) {
+					return nil
+				}
+			case <-drop:
+				return errors.New("websocket: connection to the ethereum node lost")
+			case err := <-inner.Err():
+				return err
+			case <-quit:
+				return nil
+			}
 		}
 	}), nil
 }
@@ -76,6 +170,7 @@ func runC07Contract(s *kernel.Sim) {
 	if s.Choose("sublost", 3) == 0 {
 		dropAt = s.Choose("sublostat", 8)
 	}
+
 	s.AllowLeak = true // the event subscription of contractPayment lives as long as the process
 	opAuth := bind.NewKeyedTransactor(keys[0])
 	addr, _, contract, err := vipnodepool.DeployVipnodePool(opAuth, backend, opAuth.From)
@@ -105,6 +200,12 @@ func runC07Contract(s *kernel.Sim) {
 		}
 	}
 	backend.Commit()
+	// (the chain's own event machinery comes to rest before anybody subscribes: whether the pool's subscription still
+	// sees the blocks mined so far must not be left to the Go scheduler)
+	for i := 0; i < 3; i++ {
+		time.Sleep(time.Millisecond)
+		s.Settle()
+	}
 
 	driver := []string{"memory", "badger"}[s.Choose("driver", 2)]
 	var inner store.Store
@@ -162,16 +263,153 @@ func runC07Contract(s *kernel.Sim) {
 	}
 	nops := 4 + s.Choose("nops", 12)
 	accepted := 0
+	var slowAnswer chan struct{}
+	withdraw := func(i, w int, lookFirst bool) {
+		nonce := time.Now().UnixNano()
+		name := walletName(w)
+		if lookFirst {
+			// the unauthenticated balance query (pool_account) - it fills the deposit cache
+			svc.Account(context.Background(), name)
+		}
+		sig, err := request.AddressRequest{Method: "pool_withdraw", Address: name, Nonce: nonce}.Sign(keys[w])
+		if err != nil {
+			panic(err)
+		}
+		ctx, cancel := context.WithTimeout(context.Background(), 30*time.Second)
+		err = svc.Withdraw(ctx, sig, name, nonce)
+		cancel()
+		s.Event("#%d withdraw(W%d as %s) -> %v", i, w, name[:6], err)
+		if err == nil {
+			accepted++
+		}
+	}
+	// things that take time: each is open for a few operations
+	resubOpensAt, eventsFlowAt, answerAt := -1, -1, -1
+	hot, hotUntil := 0, -1
+	openGates := func(i int, all bool) {
+		if resubOpensAt >= 0 && (all || i >= resubOpensAt) {
+			close(backend.gate("resub"))
+			backend.setGate("resub", nil)
+			resubOpensAt = -1
+			settle()
+			s.Event("#%d the new event subscription is established", i)
+		}
+		if eventsFlowAt >= 0 && (all || i >= eventsFlowAt) {
+			close(backend.gate("event"))
+			backend.setGate("event", nil)
+			eventsFlowAt = -1
+			settle()
+			s.Event("#%d delayed events arrive", i)
+		}
+		if answerAt >= 0 && (all || i >= answerAt) {
+			close(slowAnswer)
+			answerAt = -1
+			settle()
+			s.Event("#%d the slow balance query gets its answer", i)
+		}
+	}
 	for i := 0; i < nops && !s.Violated(); i++ {
 		w := 1 + s.Choose("wallet", 2)
+		if hot > 0 && i <= hotUntil && s.Choose("hotwallet", 3) != 0 {
+			w = hot // the wallet something slow is (or just was) going on with stays in the picture
+		}
 		time.Sleep(time.Millisecond) // nonces are clock readings
+		openGates(i, false)
 		if i == dropAt {
+			if g := s.Choose("resubslow", 4); g > 0 {
+				// the new subscription takes a while (reconnect): it exists g operations from now
+				backend.setGate("resub", make(chan struct{}))
+				resubOpensAt = i + g
+			}
 			close(backend.drop)
+			if s.Choose("nodegone", 3) != 0 {
+				// the connection can be established again (otherwise every new subscription fails at once, and
+				// the pool falls back to a cache that expires)
+				backend.mu.Lock()
+				backend.drop = make(chan struct{})
+				backend.mu.Unlock()
+			}
 			s.Fault("contract_event_subscription_lost")
 			settle()
-			s.Event("#%d the event subscription loses its connection", i)
+			s.Event("#%d the event subscription loses its connection (new one in %d operations)", i, resubOpensAt-i)
 		}
-		switch op := s.Choose("op", 11); {
+		op := s.Choose("op", 18)
+		if op >= 14 {
+			op = 12 + (op-14)/2 // slow answers and delayed events are what this world is about
+		}
+		if hot > 0 && i <= hotUntil && s.Choose("hotop", 3) == 0 {
+			op = 0 // ... and it asks for its money
+		}
+		if i == dropAt || op == 12 || op == 13 {
+			hot, hotUntil = w, i+6
+		}
+		if resubOpensAt >= 0 && s.Choose("whiledown", 2) == 1 {
+			// while the pool has no subscription: things that change on chain, and requests that look at them
+			op = []int{10, 14, 15, 15}[s.Choose("whiledown.op", 4)]
+		}
+		switch {
+		case op == 14: // a deposit, mined at once
+			u := int64(1 + s.Choose("more", 30))
+			deposit(keys[w], u)
+			deposited[w].Add(deposited[w], new(big.Int).Mul(unit, big.NewInt(u)))
+			backend.Commit()
+			settle()
+			s.Event("#%d deposit(W%d, %d units), mined", i, w, u)
+		case op == 15: // somebody looks at the wallet (pool_account; every keep-alive of one of its nodes does the same)
+			r, err := svc.Account(context.Background(), walletName(w))
+			if err == nil {
+				s.Event("#%d pool_account(W%d) -> deposit %s", i, w, &r.Balance.Deposit)
+			} else {
+				s.Event("#%d pool_account(W%d) -> %v", i, w, err)
+			}
+		case op == 11: // a deposit that is never mined (replaced or dropped by its sender) while somebody looks at the wallet
+			backend.Commit()
+			settle()
+			auth := bind.NewKeyedTransactor(keys[w])
+			auth.Value = new(big.Int).Mul(unit, big.NewInt(int64(10+s.Choose("ghost", 30))))
+			if _, err := contract.AddBalance(auth); err != nil {
+				panic(err)
+			}
+			svc.Account(context.Background(), walletName(w))
+			backend.Rollback()
+			s.Fault("pending_deposit_never_mined")
+			s.Event("#%d W%d: deposit of %s submitted, looked at while pending, never mined", i, w, auth.Value)
+		case op == 12: // the answer to one balance query is slow
+			if answerAt >= 0 {
+				break
+			}
+			slowAnswer = make(chan struct{})
+			backend.setGate("call", slowAnswer)
+			name := walletName(w)
+			go svc.Account(context.Background(), name)
+			s.Settle()
+			if backend.gate("call") != nil {
+				// nothing was asked of the chain (the deposit was cached): no slow answer outstanding
+				close(slowAnswer)
+				break
+			}
+			backend.setGate("call", nil)
+			answerAt = i + 1 + s.Choose("answerin", 3)
+			s.Fault("slow_answer_to_a_balance_query")
+			s.Event("#%d pool_account(W%d): the chain's answer is on its way", i, w)
+		case op == 13: // events are slow to arrive
+			if eventsFlowAt >= 0 {
+				break
+			}
+			backend.setGate("event", make(chan struct{}))
+			eventsFlowAt = i + 1 + s.Choose("eventsin", 3)
+			s.Fault("contract_events_delayed")
+			if s.Choose("eventof", 2) == 1 {
+				// ... starting with the event of a deposit that is mined now
+				u := int64(1 + s.Choose("more", 30))
+				deposit(keys[w], u)
+				deposited[w].Add(deposited[w], new(big.Int).Mul(unit, big.NewInt(u)))
+				backend.Commit()
+				settle()
+				s.Event("#%d deposit(W%d, %d units), mined; events are held up on their way to the pool", i, w, u)
+			} else {
+				s.Event("#%d events are held up on their way to the pool", i)
+			}
 		case op == 10: // the wallet takes its deposit out on chain by itself: forceSettle, the time lock, forceWithdraw
 			auth := bind.NewKeyedTransactor(keys[w])
 			if _, err := contract.ForceSettle(auth); err != nil {
@@ -190,23 +428,7 @@ func runC07Contract(s *kernel.Sim) {
 			settle()
 			s.Event("#%d chain exit(W%d): deposit withdrawn on chain", i, w)
 		case op <= 4: // withdraw
-			nonce := time.Now().UnixNano()
-			name := walletName(w)
-			if respellings && s.Choose("lookfirst", 2) == 0 {
-				// the unauthenticated balance query (pool_account) - it fills the deposit cache for this spelling
-				svc.Account(context.Background(), name)
-			}
-			sig, err := request.AddressRequest{Method: "pool_withdraw", Address: name, Nonce: nonce}.Sign(keys[w])
-			if err != nil {
-				panic(err)
-			}
-			ctx, cancel := context.WithTimeout(context.Background(), 30*time.Second)
-			err = svc.Withdraw(ctx, sig, name, nonce)
-			cancel()
-			s.Event("#%d withdraw(W%d as %s) -> %v", i, w, name[:6], err)
-			if err == nil {
-				accepted++
-			}
+			withdraw(i, w, respellings && s.Choose("lookfirst", 2) == 0)
 		case op <= 6: // a block is mined: pending settlements and deposits take effect, events reach the pool
 			backend.Commit()
 			settle()
@@ -228,6 +450,14 @@ func runC07Contract(s *kernel.Sim) {
 			s.Settle()
 		}
 		s.SigMix(fmt.Sprint(w, i%3))
+	}
+	// whatever was slow has arrived; every history can be continued by the wallets asking for their money once more
+	openGates(nops, true)
+	backend.Commit()
+	settle()
+	for w := 1; w <= 2 && !s.Violated(); w++ {
+		time.Sleep(time.Millisecond)
+		withdraw(nops+w, w, false)
 	}
 	backend.Commit()
 	settle()
